@@ -17,7 +17,8 @@ import (
 
 var cssProps = strings.Fields(`align-content align-items align-self all animation animation-delay animation-direction animation-duration animation-fill-mode animation-iteration-count animation-name animation-play-state animation-timing-function backface-visibility background background-attachment background-blend-mode background-clip background-color background-image background-origin background-position background-repeat background-size border border-bottom border-bottom-color border-bottom-left-radius border-bottom-right-radius border-bottom-style border-bottom-width border-collapse border-color border-image border-image-outset border-image-repeat border-image-slice border-image-source border-image-width border-left border-left-color border-left-style border-left-width border-radius border-right border-right-color border-right-style border-right-width border-spacing border-style border-top border-top-color border-top-left-radius border-top-right-radius border-top-style border-top-width border-width bottom box-decoration-break box-shadow box-sizing break-after break-before break-inside caption-side caret-color clear clip color column-count column-fill column-gap column-rule column-rule-color column-rule-style column-rule-width column-span column-width columns cursor direction display empty-cells filter flex flex-basis flex-direction flex-flow flex-grow flex-shrink flex-wrap float font font-family font-kerning font-language-override font-size font-size-adjust font-stretch font-style font-synthesis font-variant font-variant-caps font-variant-position font-weight grid grid-area grid-auto-columns grid-auto-flow grid-auto-rows grid-column grid-column-end grid-column-gap grid-column-start grid-gap grid-row grid-row-end grid-row-gap grid-row-start grid-template grid-template-areas grid-template-columns grid-template-rows hanging-punctuation height hyphens image-rendering isolation justify-content left letter-spacing line-break line-height list-style list-style-image list-style-position list-style-type margin margin-bottom margin-left margin-right margin-top max-height max-width min-height min-width mix-blend-mode object-fit object-position opacity order orphans outline outline-color outline-offset outline-style outline-width overflow overflow-wrap overflow-x overflow-y padding padding-bottom padding-left padding-right padding-top page-break-after page-break-before page-break-inside perspective perspective-origin pointer-events position quotes resize right scroll-behavior tab-size table-layout text-align text-align-last text-combine-upright text-decoration text-decoration-color text-decoration-line text-decoration-style text-indent text-justify text-orientation text-overflow text-shadow text-transform top transform transform-origin transform-style transition transition-delay transition-duration transition-property transition-timing-function unicode-bidi user-select vertical-align visibility white-space widows width word-break word-spacing word-wrap writing-mode z-index`)
 
-var cssTokens = uniq(strings.Fields(`initial inherit unset none auto normal 0 1 2 10 1.5 .5 -1 1px 2em 50% -3px 1s 200ms 0.5 1.0 red blue transparent #fff #a1b2c3 rgb(1,2,3) rgba(1,2,3,0.5) hsl(120,50%,50%) hsla(120,50%,50%,0.3)
+var cssTokens = uniq(strings.Fields(`rotate(90deg) rotate(45deg) rotatex(10deg) rotate(0.5turn) opacity(50%) calc(1px+2px) var(--x) linear-gradient(red,blue) 1e3 +1 5e-1 1.00 rgba(0,0,0,.5) currentcolor scale(1.5) translate(10%,5%) skew(10deg,5deg) hue-rotate(90deg) plus-lighter
+initial inherit unset none auto normal 0 1 2 10 1.5 .5 -1 1px 2em 50% -3px 1s 200ms 0.5 1.0 red blue transparent #fff #a1b2c3 rgb(1,2,3) rgba(1,2,3,0.5) hsl(120,50%,50%) hsla(120,50%,50%,0.3)
  url(http://x.y/z.png) url("https://x.y/z") left right top bottom center middle solid dotted dashed double thin medium thick bold italic oblique small-caps serif arial 'times' "times" underline overline line-through wavy
  linear ease ease-in step-start steps(2,end) cubic-bezier(0.1,0.2,0.3,0.4) infinite alternate forwards both paused running myanim all opacity width block inline flex grid row column wrap nowrap stretch baseline flex-start
  space-between repeat no-repeat repeat-x scroll fixed border-box padding-box content-box cover contain fill round space inside outside disc circle square decimal visible hidden collapse
@@ -69,6 +70,12 @@ func checkC18(c *Case, r *Rec) error {
 	if c.Kind == "unknown" {
 		if h(v) {
 			return violation("", "C18: the handler for the unknown property %q accepts %q", prop, v)
+		}
+		return nil
+	}
+	if c.Kind == "position" {
+		if h(v) {
+			return violation("", "C18: the default handler for %q accepts %q: two keywords of the same axis are not a position", prop, v)
 		}
 		return nil
 	}
@@ -368,6 +375,11 @@ func fixedC18(r *Rec, tier string, shard, nshards int) []*Case {
 	fails = append(fails, sf...)
 	totalCalls += scalls
 	r.ClassN("structural_damage_calls", scalls)
+	if shard == 0 {
+		pf, pcalls := positionStage()
+		fails = append(fails, pf...)
+		totalCalls += pcalls
+	}
 	r.SetExtra("handlers_with_open_identifier_space", free)
 	r.EvalN(totalCalls)
 	r.SetExtra("handlers_checked", len(props))
